@@ -122,7 +122,25 @@ def coq_properties(ctx, prop, extra_files=()):
                 ctx.trusted.append("axioms reported for %s: %s" % (f, " | ".join(a.strip() for a in axioms)[:400]))
             else:
                 ctx.trusted.append("%s: Print Assumptions under %d theorems: Closed under the global context" % (f, closed))
+    if not ctx.quick() and allok:
+        coqchk(ctx, [f[:-2] for f in files])
     return allok
+
+def coqchk(ctx, modules):
+    """thorough tier: re-check the compiled property files and everything they depend on with the independent checker and record
+    the axioms it reports (-o): the development must rely on none"""
+    from concurrent.futures import ThreadPoolExecutor
+    def one(m):
+        rc, out = sh(["coqchk", "-silent", "-o", "-Q", "coq", "PIQP", "PIQP." + m], cwd=VERIF, timeout=3000)
+        ax = re.search(r"\* Axioms:(.*?)\n\s*\n", out + "\n\n", flags=re.S)
+        axs = ax.group(1).strip() if ax else "?"
+        bad = [k for k in ("type-in-type", "unsafe (co)fixpoints", "positivity is assumed") if not re.search(re.escape(k) + r":\s*<none>", out)]
+        return m, rc, axs, bad, out[-300:]
+    with ThreadPoolExecutor(max_workers=4) as ex:
+        for m, rc, axs, bad, tail in ex.map(one, modules):
+            ok = rc == 0 and axs == "<none>" and not bad
+            ctx.ob("coqchk:%s" % m, "coqchk", ok, "rc=%d axioms=%s %s %s" % (rc, axs[:300], bad, "" if ok else tail))
+            ctx.trusted.append("coqchk -o PIQP.%s: axioms %s" % (m, axs[:200]))
 
 # ---------------------------------------------------------------- harness cache
 def _hash(b):
@@ -207,8 +225,11 @@ def diff_obs(a, b, ignore=("nonfinite", "trace"), only=None):
     """compare two observation dicts; returns list of (case, key, a, b)"""
     out = []
     for c in sorted(set(a) | set(b)):
-        la = {k: v for k, v in a.get(c, []) if k.split(".", 1)[1] not in ignore and (only is None or k.split(".", 1)[1] in only)}
-        lb = {k: v for k, v in b.get(c, []) if k.split(".", 1)[1] not in ignore and (only is None or k.split(".", 1)[1] in only)}
+        def keep(k):
+            kk = k.split(".", 1)[1]
+            return kk not in ignore and not kk.startswith("kkt.") and (only is None or kk in only)
+        la = {k: v for k, v in a.get(c, []) if keep(k)}
+        lb = {k: v for k, v in b.get(c, []) if keep(k)}
         # a model error (checked division by zero / index error in the Gallina model) ends the comparison of that case:
         # for DivZero the implementation must have flagged a non-finite arithmetic result in the same call
         merr = [k for k in lb if k.endswith(".model_error")]
